@@ -1,0 +1,14 @@
+//go:build verif
+
+package highlight
+
+import "time"
+
+// Exports for the verification harness (/verif). Only built with -tags verif.
+
+// VerifSetMaxBlockForLate sets how long Highlight waits for late results and returns the old value.
+func VerifSetMaxBlockForLate(d time.Duration) time.Duration {
+	old := maxBlockForLate
+	maxBlockForLate = d
+	return old
+}
